@@ -56,6 +56,9 @@ def render(case):
     log_expr = "{" + ", ".join("'{0}': {0}".format(n) for n in subset) + "}"
     # fac_defaults: every parameter of the factory carries a (wrong) default; the values of the call must win
     params = ", ".join((n + "=WRONG") if case.get("fac_defaults") else n for n in subset)
+    if case.get("fac_kwonly") and subset:
+        # the factory takes its parameters as keyword-only ones
+        params = "*, " + params
     fac_body = "    LOG.append(('ef', {}))\n    RET['v'] = {}\n    return RET['v']\n".format(log_expr, case.get("fac_ret", "MyErr('from factory')"))
     err = None
     if form == "none":
@@ -142,6 +145,8 @@ def cases(tier):
                         out.append({"role": role, "callable": ck, "form": form, "subset": sub})
                         if sub and form in ("func", "lambda", "bound"):
                             out.append({"role": role, "callable": ck, "form": form, "subset": sub, "fac_defaults": True})
+                            out.append({"role": role, "callable": ck, "form": form, "subset": sub, "fac_kwonly": True})
+                            out.append({"role": role, "callable": ck, "form": form, "subset": sub, "fac_kwonly": True, "fac_defaults": True})
                     if form in ("func", "bound"):
                         out.append({"role": role, "callable": ck, "form": form, "subset": names[:1] + ["nope"], "unknown": "nope"})
                         out.append({"role": role, "callable": ck, "form": form, "subset": names[:1], "fac_ret": "'not an exception'"})
